@@ -873,6 +873,14 @@ pub fn candidates(spec: &Spec, k: usize, r: &mut Rng, random_extra: usize) -> Ve
                     }
                 }
             }
+            // two consecutive slashes inside a free-text component (references must not contain them)
+            if free && c.max >= 6 && c.lit.is_empty() {
+                let base = sample(c, typical_len(c).max(6), k + ci);
+                let n = base.chars().count();
+                let v: String = base.chars().enumerate().map(|(i, x)| if i == n / 2 || i == n / 2 + 1 { '/' } else { x }).collect();
+                let over = |l2: usize, c2: usize, rep: usize| if l2 == li && c2 == ci && rep == 0 { Some(v.clone()) } else { None };
+                out.push(Candidate { content: render(spec, k, &over, &default_counts), component: comp_label.clone(), class: "double-slash-inside".into() });
+            }
             // dates around the century window, a leap day, year ends
             if c.name == "date" {
                 for d in ["491231", "500101", "501231", "510101", "791231", "800101", "991231", "000101", "240229", "241230", "250101", "20250615", "19240719", "2025-06-15", "15062025"] {
